@@ -164,6 +164,48 @@ Fixpoint wt (t : ty) (v : val) {struct t} : bool :=
   | _, _ => false
   end.
 
+(* positions (offset, length) of the framing integers of an encoding: sequence / byte-string /
+   string lengths, option tags and variant indices, in encoding order.  Like [encode] it only
+   needs the value. *)
+Fixpoint frames (v : val) (off : nat) {struct v} : list (nat * nat) * nat :=
+  match v with
+  | VU8 _ | VBool _ => ([], (off + 1)%nat)
+  | VUInt n => ([], (off + length (enc_varint n))%nat)
+  | VSInt z => ([], (off + length (enc_svarint z))%nat)
+  | VF64 bits => ([], (off + length bits)%nat)
+  | VBytes bs | VStr bs => let l := length (enc_len (length bs)) in ([(off, l)], (off + l + length bs)%nat)
+  | VNone => ([(off, 1%nat)], (off + 1)%nat)
+  | VSome v' => let '(fs, e) := frames v' (off + 1)%nat in ((off, 1%nat) :: fs, e)
+  | VSeq vs =>
+      let l := length (enc_len (length vs)) in
+      let '(fs, e) := (fix go (vs : list val) (off : nat) : list (nat * nat) * nat :=
+                         match vs with
+                         | [] => ([], off)
+                         | x :: r => let '(f1, e1) := frames x off in let '(f2, e2) := go r e1 in (f1 ++ f2, e2)
+                         end) vs (off + l)%nat in
+      ((off, l) :: fs, e)
+  | VTuple vs =>
+      (fix go (vs : list val) (off : nat) : list (nat * nat) * nat :=
+         match vs with
+         | [] => ([], off)
+         | x :: r => let '(f1, e1) := frames x off in let '(f2, e2) := go r e1 in (f1 ++ f2, e2)
+         end) vs off
+  | VVariant i v' =>
+      let l := length (enc_varint i) in
+      let '(fs, e) := frames v' (off + l)%nat in ((off, l) :: fs, e)
+  end.
+
+(* unfold every delayed shape (only for finite, non-recursive shapes) *)
+Fixpoint force (t : ty) : ty :=
+  match t with
+  | TOpt t' => TOpt (force t')
+  | TSeq t' => TSeq (force t')
+  | TTuple ts => TTuple (map force ts)
+  | TEnum ts => TEnum (map force ts)
+  | TDelay k => force (k tt)
+  | _ => t
+  end.
+
 (* ---- boolean equality of values (for the correspondence cases) ---- *)
 Fixpoint bytes_eqb (a b : bytes) : bool :=
   match a, b with
